@@ -271,7 +271,7 @@ def consume(item):
     if item is None or item == "END":
         fin.set()
         return
-    time.sleep(0.005)  # slow consumer: the receiver thread is busy, data piles up on the way
+    time.sleep(0.06)  # slow consumer (about 2 s for the backlog): the receiver thread is busy, data piles up on the way
     answers.send((item[:1], len(item)))
 
 channel.setcallback(consume, endmarker=None)
